@@ -186,48 +186,61 @@ end
 
 /-! ### shared pieces -/
 
-def isXmlnsKey (k : String) : Bool := k == "xmlns" || k.startsWith "xmlns:"
+/-- `s.startswith(p)` / `s[n:]`, on the character lists (so that the string facts needed are list facts) -/
+def hasPrefix (p s : String) : Bool := p.toList.isPrefixOf s.toList
+def dropN (n : Nat) (s : String) : String := String.ofList (s.toList.drop n)
+
+def isXmlnsKey (k : String) : Bool := k == "xmlns" || hasPrefix "xmlns:" k
 
 /-- `(f'{ns_prefix}:{k}' if k else ns_prefix, v) for k, v in xmlns` with ns_prefix `pre ++ "xmlns"` -/
 def xmlnsEntries (pre : String) (x : List (String × String)) : List (String × J) :=
   x.map fun kv => (if kv.1 == "" then pre ++ "xmlns" else pre ++ "xmlns:" ++ kv.1, .atom "s" kv.2)
 
-/-- cdata parts are re-numbered 1,2,… by the encoders (`cdata_num`) -/
+/-- cdata parts are re-numbered 1,2,… by the encoders (`cdata_num`); the particle's `single` flag is not
+    known on the encode side -/
 def renum {α} : Nat → List (Item α) → List (Item α)
   | _, [] => []
   | k, .cdata _ v :: r => .cdata k v :: renum (k + 1) r
-  | k, .child nm s v :: r => .child nm s v :: renum k r
+  | k, .child nm _ v :: r => .child nm false v :: renum k r
 
 /-! ### JsonML (converters/jsonml.py) -/
 
 namespace JsonML
 
-/-- get_xmlns_from_data, jsonml.py:50-62 -/
-def xmlnsOf (useNs : Bool) (obj : J) : List (String × String) :=
-  match useNs, obj with
-  | true, .list (_ :: .dict kvs :: _) =>
-      kvs.filterMap fun kv =>
-        match kv.2 with
-        | .atom _ v =>
-          if kv.1 == "xmlns" then some ("", v)
-          else if kv.1.startsWith "xmlns:" then some ((kv.1.drop 6).toString, v) else none
-        | _ => none
+def xmlnsOfKv (kv : String × J) : Option (String × String) :=
+  match kv.2 with
+  | .atom _ v =>
+    if kv.1 == "xmlns" then some ("", v)
+    else if hasPrefix "xmlns:" kv.1 then some (dropN 6 kv.1, v) else none
+  | _ => none
+
+/-- get_xmlns_from_data, jsonml.py:50-62 (`rest` = obj[1:]) -/
+def xmlnsOf (useNs : Bool) (rest : List J) : List (String × String) :=
+  match useNs, rest with
+  | true, .dict kvs :: _ => kvs.filterMap xmlnsOfKv
   | _, _ => []
+
+def attrPairs (m : Mapper) (hd : Hd) : List (String × J) := hd.attrs.map fun kv => (m.mp kv.1, kv.2)
+
+/-- jsonml.py:72-77: `dict(map_attributes(...))` then `.update(xmlns entries)` -/
+def decAttrs (m : Mapper) (useNs : Bool) (hd : Hd) : List (String × J) :=
+  let a := dictUpdate [] (attrPairs m hd)
+  if !hd.xmlns.isEmpty && useNs then dictUpdate a (xmlnsEntries "" hd.xmlns) else a
+
+def header (m : Mapper) (useNs : Bool) (hd : Hd) : List J :=
+  if (decAttrs m useNs hd).isEmpty then [] else [.dict (decAttrs m useNs hd)]
+
+def textPart (hd : Hd) : List J := match hd.text with | some t => [t] | none => []
+
+/-- jsonml.py:85-88 -/
+def itemJ (m : Mapper) : Item J → J
+  | .cdata _ v => v
+  | .child nm _ v => if v.isNull then .list [.atom "s" (m.mp nm)] else v
 
 /-- element_decode, jsonml.py:64-90 -/
 def dec (m : Mapper) (useNs : Bool) (f : Facts) (hd : Hd) (its : List (Item J)) : J :=
-  let attributes := dictUpdate [] (hd.attrs.map fun kv => (m.mp kv.1, kv.2))
-  let attributes := if !hd.xmlns.isEmpty && useNs then dictUpdate attributes (xmlnsEntries "" hd.xmlns)
-                    else attributes
-  let r : List J := [.atom "s" (m.mp hd.tag)]
-  let r := if attributes.isEmpty then r else r ++ [.dict attributes]
-  let r := match hd.text with | some t => r ++ [t] | none => r
-  let r := if f.hasGroup then
-      r ++ its.map (fun
-        | .cdata _ v => v
-        | .child nm _ v => if v.isNull then .list [.atom "s" (m.mp nm)] else v)
-    else r
-  .list r
+  .list (.atom "s" (m.mp hd.tag) ::
+    (header m useNs hd ++ textPart hd ++ (if f.hasGroup then its.map (itemJ m) else [])))
 
 /-- the comprehension of jsonml.py:126-131 -/
 def number (m : Mapper) (useNs : Bool) : Nat → List J → Except Err (List (Item J))
@@ -235,16 +248,40 @@ def number (m : Mapper) (useNs : Bool) : Nat → List J → Except Err (List (It
   | k, e :: r =>
     match e with
     | .list [] => .error .leak                -- `e[0]` on an empty list: IndexError
-    | .list (.atom "s" s :: _) => do
-        let r' ← number m useNs k r
-        pure (.child (m.um s) false e :: r')
+    | .list (.atom kd s :: _) =>
+        if kd == "s" then do
+          let r' ← number m useNs k r
+          pure (.child (m.um s) false e :: r')
+        else .error .typeErr                  -- unmap_qname of a non-string: XMLSchemaTypeError
     | .list (.dict _ :: _) =>                 -- unmap_qname(dict): `qname[0]` raises KeyError
         if useNs then .error .leak else .error .typeErr
-    | .list (_ :: _) => .error .typeErr       -- unmap_qname of a non-string: XMLSchemaTypeError
+    | .list (_ :: _) => .error .typeErr
     | .elem .. => .error .leak                -- DataElement[0] is a DataElement, not a string
     | e => do
         let r' ← number m useNs (k + 1) r
         pure (.cdata k e :: r')
+
+/-- jsonml.py:108-115 -/
+def splitAttrs (m : Mapper) (rest : List J) : List (String × J) × List J :=
+  match rest with
+  | .dict kvs :: body =>
+      (dictUpdate [] ((kvs.filter fun kv => !isXmlnsKey kv.1).map fun kv => (m.umA kv.1, kv.2)), body)
+  | _ => ([], rest)
+
+/-- jsonml.py:117-132 -/
+def encBody (m : Mapper) (useNs : Bool) (f : Facts) (tag : String) (attributes : List (String × J))
+    (xmlns : List (String × String)) (body : List J) : Except Err (Hd × List (Item J)) :=
+  match body with
+  | [] => .ok ({ tag, text := none, attrs := attributes, xmlns }, [])
+  | [t] =>
+    if f.simple || (f.emptyContent && f.mixed) then
+      .ok ({ tag, text := if t.isNull then none else some t, attrs := attributes, xmlns }, [])
+    else do
+      let c ← number m useNs 1 body
+      pure ({ tag, text := none, attrs := attributes, xmlns }, c)
+  | _ => do
+      let c ← number m useNs 1 body
+      pure ({ tag, text := none, attrs := attributes, xmlns }, c)
 
 /-- element_encode, jsonml.py:92-132 -/
 def enc (m : Mapper) (useNs : Bool) (f : Facts) (name : String) (obj : J) : Except Err (Hd × List (Item J)) :=
@@ -252,29 +289,14 @@ def enc (m : Mapper) (useNs : Bool) (f : Facts) (name : String) (obj : J) : Exce
   | .list [] => .error .valueErr
   | .list (h :: rest) =>
     match h with
-    | .atom "s" s =>
-      let tag := m.um s
-      if tag != name then .error .unmatchedTag else
-      match rest with
-      | [] => .ok ({ tag, text := none, attrs := [], xmlns := [] }, [])
-      | r0 :: _ =>
-        let xmlns := xmlnsOf useNs obj
-        let (attributes, body) := match r0 with
-          | .dict kvs =>
-              (dictUpdate [] ((kvs.filter fun kv => !isXmlnsKey kv.1).map fun kv => (m.umA kv.1, kv.2)),
-               rest.drop 1)
-          | _ => ([], rest)
-        match body with
-        | [] => .ok ({ tag, text := none, attrs := attributes, xmlns }, [])
-        | [t] =>
-          if f.simple || (f.emptyContent && f.mixed) then
-            .ok ({ tag, text := if t.isNull then none else some t, attrs := attributes, xmlns }, [])
-          else do
-            let c ← number m useNs 1 body
-            pure ({ tag, text := none, attrs := attributes, xmlns }, c)
-        | _ => do
-            let c ← number m useNs 1 body
-            pure ({ tag, text := none, attrs := attributes, xmlns }, c)
+    | .atom kd s =>
+      if kd == "s" then
+        let tag := m.um s
+        if tag != name then .error .unmatchedTag else
+        match rest with
+        | [] => .ok ({ tag, text := none, attrs := [], xmlns := [] }, [])
+        | _ => encBody m useNs f tag (splitAttrs m rest).1 (xmlnsOf useNs rest) (splitAttrs m rest).2
+      else .error .typeErr
     | .dict _ => if useNs then .error .leak else .error .valueErr   -- unmap_qname(dict): KeyError
     | _ => .error .typeErr
   | .elem .. => .error .leak
